@@ -75,18 +75,29 @@ Proof.
     rewrite (proj2 (mk_router_first _ _ _ Hk)). exact Hk.
 Qed.
 
-Lemma singleton_group S s : wf_sessions S -> In s S ->
+(* the two facts about the session list the grouping needs *)
+Definition wf_lite (S : list session) : Prop :=
+  NoDup S /\ forall s t, In s S -> In t S -> rkey s = rkey t -> nname s = nname t -> s = t.
+
+Lemma wf_lite_of S : wf_sessions S -> wf_lite S.
+Proof. intros W. split; [apply (wf_nodup _ W)|apply (wf_nbr _ W)]. Qed.
+
+Lemma singleton_group_lite S s : wf_lite S -> In s S ->
   sessions_with nname (nname s) (sessions_with rkey (rkey s) S) = [s].
 Proof.
-  intros W Hs. apply nodup_all_eq.
-  - unfold sessions_with. apply NoDup_filter, NoDup_filter. apply (wf_nodup _ W).
+  intros [Hnd Hnb] Hs. apply nodup_all_eq.
+  - unfold sessions_with. apply NoDup_filter, NoDup_filter. exact Hnd.
   - intros x Hx. apply sessions_with_in in Hx as [Hx Nx]. apply sessions_with_in in Hx as [Hx Kx].
-    apply (wf_nbr _ W); assumption.
+    apply Hnb; assumption.
   - apply sessions_with_in. split; [|reflexivity]. apply sessions_with_in. split; [assumption|reflexivity].
 Qed.
 
+Lemma singleton_group S s : wf_sessions S -> In s S ->
+  sessions_with nname (nname s) (sessions_with rkey (rkey s) S) = [s].
+Proof. intros W. apply singleton_group_lite, wf_lite_of, W. Qed.
+
 (* every neighbor of a router is built from exactly one session of that router *)
-Lemma router_nbr S k r n : wf_sessions S -> mk_router S k = Some r -> In n (rc_nbrs r) ->
+Lemma router_nbr_lite S k r n : wf_lite S -> mk_router S k = Some r -> In n (rc_nbrs r) ->
   In (nc_s n) S /\ rkey (nc_s n) = k /\ mk_neighbor (nc_s n) (s_advs (nc_s n)) = Some n.
 Proof.
   intros W Hr Hn. destruct (mk_router_spec _ _ _ Hr) as (f & rest & E & _ & _ & _ & Hnb).
@@ -95,10 +106,14 @@ Proof.
   { rewrite E. assert (In g (sessions_with nname (nname g) (f :: rest))) by (rewrite Eg; left; reflexivity).
     apply sessions_with_in in H. tauto. }
   apply sessions_with_in in Hg as [HgS Kg].
-  rewrite <- E, <- Kg, (singleton_group S g W HgS) in Eg. inversion Eg; subst more.
+  rewrite <- E, <- Kg, (singleton_group_lite S g W HgS) in Eg. inversion Eg; subst more.
   simpl in Hmk. rewrite app_nil_r in Hmk.
   pose proof (proj1 (mk_neighbor_covers _ _ _ Hmk)) as Hs. rewrite Hs. auto.
 Qed.
+
+Lemma router_nbr S k r n : wf_sessions S -> mk_router S k = Some r -> In n (rc_nbrs r) ->
+  In (nc_s n) S /\ rkey (nc_s n) = k /\ mk_neighbor (nc_s n) (s_advs (nc_s n)) = Some n.
+Proof. intros W. apply router_nbr_lite, wf_lite_of, W. Qed.
 
 Lemma router_nbr_names S k r : mk_router S k = Some r ->
   map (fun n => nname (nc_s n)) (rc_nbrs r) = sort_s (map nname (sessions_with rkey k S)).
@@ -114,7 +129,7 @@ Proof.
 Qed.
 
 (* the router and the neighbor of a session *)
-Lemma session_nbr S rs s : wf_sessions S -> create_config S = Some rs -> In s S ->
+Lemma session_nbr_lite S rs s : wf_lite S -> create_config S = Some rs -> In s S ->
   exists r n, In r rs /\ mk_router S (rkey s) = Some r /\ In n (rc_nbrs r) /\ nc_s n = s /\
               mk_neighbor s (s_advs s) = Some n.
 Proof.
@@ -124,9 +139,14 @@ Proof.
   assert (Hnn: In (nname s) (map (fun n => nname (nc_s n)) (rc_nbrs r))).
   { rewrite (router_nbr_names _ _ _ Hmr). apply sort_s_in, in_map. apply sessions_with_in. auto. }
   apply in_map_iff in Hnn as (n & Nn & Hn). exists n.
-  destruct (router_nbr _ _ _ _ W Hmr Hn) as (HS & K & Hmk).
-  assert (nc_s n = s) by (apply (wf_nbr _ W); assumption). rewrite H in Hmk. auto.
+  destruct (router_nbr_lite _ _ _ _ W Hmr Hn) as (HS & K & Hmk).
+  assert (nc_s n = s) by (apply (proj2 W); assumption). rewrite H in Hmk. auto.
 Qed.
+
+Lemma session_nbr S rs s : wf_sessions S -> create_config S = Some rs -> In s S ->
+  exists r n, In r rs /\ mk_router S (rkey s) = Some r /\ In n (rc_nbrs r) /\ nc_s n = s /\
+              mk_neighbor s (s_advs s) = Some n.
+Proof. intros W. apply session_nbr_lite, wf_lite_of, W. Qed.
 
 (* ---------- items of the rendered configuration ---------- *)
 Lemma forall_map_seq0 {X} (g : X -> seqspec * item) l :
